@@ -213,7 +213,7 @@ func TestC14Keys(t *testing.T) {
 	const name = "TestC14Keys"
 	rec := evid.New("C14", name, "keys built inside the generator from rapid-drawn bytes: RSA from two generated primes (modulus 1024..2064 bits incl. uneven prime sizes, e in {3,17,257,65537}), ECDSA scalars on P-224/256/384/521 (tiny, near n, leading zero bytes/top bit, random; one key in four moved to the next point with a coordinate shorter than the field) "+
 		"x every register format (PKCS#1, PKCS#8, SEC1, X.509, Transparent) x private/public half x versions 1.0..1.4 x {binary, XML, JSON}; pipeline: client.Register().WithKeyFormat(f).<builder>(key) -> request message -> encode/decode -> Get response -> encode/decode (binary: received from a TTLV stream on which another message follows before the key is extracted) -> accessors; "+
-		"oracle: key.Equal(original) for every accessor incl. the PEM ones; non-trivial = transparent format or XML/JSON; distinct by (key, format, version, encoding, half)").Attach(t)
+		"oracle: key.Equal(original) for every accessor incl. the PEM ones, asked in a drawn order and the first one once more at the end; non-trivial = transparent format or XML/JSON; distinct by (key, format, version, encoding, half)").Attach(t)
 	rapid.Check(t, func(rt *rapid.T) {
 		ver := rapid.SampledFrom(gen.Versions).Draw(rt, "version")
 		enc := rapid.SampledFrom(encodings).Draw(rt, "encoding")
@@ -311,43 +311,49 @@ func TestC14Keys(t *testing.T) {
 			}
 			return x509.ParsePKIXPublicKey(blk.Bytes)
 		}
+		// the accessors are asked in a drawn order, and the first one again at the end: what one of them returned does not
+		// depend on which ones were asked before
+		type acc struct {
+			what string
+			f    func() (any, error)
+		}
+		var accs []acc
 		if public {
-			if !check("PublicKey", func() (any, error) { return get.PublicKey() }) {
-				return
-			}
+			accs = append(accs, acc{"PublicKey", func() (any, error) { return get.PublicKey() }})
 			if isRSA {
-				if !check("RsaPublicKey", func() (any, error) { return get.RsaPublicKey() }) {
-					return
-				}
-			} else if !check("EcdsaPublicKey", func() (any, error) { return get.EcdsaPublicKey() }) {
-				return
+				accs = append(accs, acc{"RsaPublicKey", func() (any, error) { return get.RsaPublicKey() }})
+			} else {
+				accs = append(accs, acc{"EcdsaPublicKey", func() (any, error) { return get.EcdsaPublicKey() }})
 			}
-			check("PemPublicKey", func() (any, error) {
+			accs = append(accs, acc{"PemPublicKey", func() (any, error) {
 				s, err := get.PemPublicKey()
 				if err != nil {
 					return nil, err
 				}
 				return parsePEM(s, false)
-			})
-			return
+			}})
+		} else {
+			accs = append(accs, acc{"PrivateKey", func() (any, error) { return get.PrivateKey() }})
+			if isRSA {
+				accs = append(accs, acc{"RsaPrivateKey", func() (any, error) { return get.RsaPrivateKey() }})
+			} else {
+				accs = append(accs, acc{"EcdsaPrivateKey", func() (any, error) { return get.EcdsaPrivateKey() }})
+			}
+			accs = append(accs, acc{"PemPrivateKey", func() (any, error) {
+				s, err := get.PemPrivateKey()
+				if err != nil {
+					return nil, err
+				}
+				return parsePEM(s, true)
+			}})
 		}
-		if !check("PrivateKey", func() (any, error) { return get.PrivateKey() }) {
-			return
-		}
-		if isRSA {
-			if !check("RsaPrivateKey", func() (any, error) { return get.RsaPrivateKey() }) {
+		order := rapid.Permutation([]int{0, 1, 2}).Draw(rt, "accessor-order")
+		for _, k := range order {
+			if !check(accs[k].what, accs[k].f) {
 				return
 			}
-		} else if !check("EcdsaPrivateKey", func() (any, error) { return get.EcdsaPrivateKey() }) {
-			return
 		}
-		check("PemPrivateKey", func() (any, error) {
-			s, err := get.PemPrivateKey()
-			if err != nil {
-				return nil, err
-			}
-			return parsePEM(s, true)
-		})
+		check(accs[order[0]].what+"(again)", accs[order[0]].f)
 	})
 }
 
